@@ -406,7 +406,7 @@ D(g, X, p, c, env) ==
               IF ~rb.ok THEN Fail(un.fl \cup rb.fl)
               ELSE R(TRUE, rb.end, IF o = "thenctx" THEN VP(un.val, rb.val) ELSE rb.val,
                      un.em \o rb.em, un.fl \cup rb.fl)
-    [] o \in {"label", "maperr", "withstate"} -> un      \* erasure: decorations never change the match
+    [] o \in {"label", "maperr", "withstate", "extsub"} -> un      \* erasure: decorations never change the match
     [] o = "recover" ->
          \* C08: transparent on success; on failure the strategy's outcome plus exactly one
          \* extra error (added by the caller, which knows the pending primary error)
